@@ -205,6 +205,8 @@ theorem ownFresh_step {u B : Int} {s s' : State} {l : Label} (hu : 0 < u) (hB0 :
       · rw [updOp_other _ _ hij] at ho
         rw [hnow, hst]; exact hinv i o k ho hal hk
   | exitBegin j => exact absurd ha (by simp [Allowed])
+  | wakeIssue j => exact absurd ha (by simp [Allowed])
+  | land j => exact absurd ha (by simp [Allowed])
   | kill j =>
     obtain ⟨oj, hoj, _, hnow, hst, hops, _⟩ := kill_spec h
     refine ⟨?_, ?_⟩
@@ -325,6 +327,8 @@ theorem ops_none_of_not_started {u : Int} {i : Identity} : ∀ (ls : List Label)
       | deliver j => obtain ⟨oj, hj, _, _, _, _, _, hops⟩ := deliver_spec hs; exact upd hj hops
       | deliverStale j v => obtain ⟨oj, hj, _, _, _, _, _, hops⟩ := stale_spec hs; exact upd hj hops
       | wake j lag => obtain ⟨oj, hj, _, _, _, hops, _⟩ := wake_spec hs; exact upd hj hops
+      | wakeIssue j => obtain ⟨oj, hj, _, _, _, _, _, hops⟩ := wakeIssue_spec hs; exact upd hj hops
+      | land j => obtain ⟨oj, _, hj, _, _, _, hops, _⟩ := land_spec hs; exact upd hj hops
       | tick d => simp only [step, Option.some.injEq] at hs; subst hs; exact hn
       | expire j => simp only [step, Option.some.injEq] at hs; subst hs; exact hn
       | foreign j r => simp only [step, Option.some.injEq] at hs; subst hs; exact hn
@@ -344,5 +348,91 @@ theorem timely_reachable {u B : Int} {s : State} (h : Timely u B s) : Reachable 
   induction h with
   | init => exact Reachable.init
   | step l _ _ hs ih => exact Reachable.step l ih hs
+
+/-! ### a decidable check of `Allowed` along a concrete run (all operators among `ids`) -/
+
+def opOk (s : State) (i : Identity) (f : Op → Bool) : Bool :=
+  match s.ops i with | some o => f o | none => true
+
+def allowedOn (u B : Int) (ids : List Identity) (s : State) : Label → Bool
+  | .start i _ L => ids.contains i && decide (1 ≤ L ∧ 2 * B < marginT u L)
+  | .keepalive _ lag => decide ((lag : Int) ≤ B)
+  | .wake _ lag => decide ((lag : Int) ≤ B)
+  | .tick d => ids.all (fun i => opOk s i (fun o => !o.alive ||
+      (match o.nextKA with | some k => decide (s.now + d ≤ k + B) | none => true)))
+  | .expire j => ids.all (fun i => opOk s i (fun o => !o.alive ||
+      (match o.nextKA with | some k => decide (latestDeadline u s.status j s.now ≤ k + B) | none => true)))
+  | .deliverStale i view => opOk s i (fun o => benignView u s i o.prio view)
+  | .exitBegin _ => false
+  | .wakeIssue _ => false
+  | .land _ => false
+  | .foreign j _ => (s.ops j).isNone
+  | _ => true
+
+theorem allowedOn_sound {u B : Int} {ids : List Identity} {s : State} {l : Label}
+    (hinv : ∀ i, i ∉ ids → s.ops i = none) (h : allowedOn u B ids s l = true) : Allowed u B s l := by
+  have key : ∀ (f : Op → Bool), ids.all (fun i => opOk s i f) = true → ∀ i o, s.ops i = some o → f o = true := by
+    intro f hall i o ho
+    by_cases hi : i ∈ ids
+    · have := List.all_eq_true.mp hall i hi
+      simpa [opOk, ho] using this
+    · rw [hinv i hi] at ho; cases ho
+  cases l with
+  | start i p L => simp only [allowedOn, Bool.and_eq_true, decide_eq_true_eq] at h; exact h.2
+  | keepalive i lag => simpa [allowedOn, Allowed] using h
+  | wake i lag => simpa [allowedOn, Allowed] using h
+  | tick d =>
+    intro i o k ho ha hk
+    have := key _ h i o ho
+    simpa [ha, hk] using this
+  | expire j =>
+    intro i o k ho ha hk
+    have := key _ h i o ho
+    simpa [ha, hk] using this
+  | deliverStale i view =>
+    intro o ho
+    simpa [allowedOn, opOk, ho] using h
+  | exitBegin i => simp [allowedOn] at h
+  | wakeIssue i => simp [allowedOn] at h
+  | land i => simp [allowedOn] at h
+  | foreign j r =>
+    simp only [allowedOn, Option.isNone_iff_eq_none] at h
+    exact h
+  | exit i => trivial
+  | exitLost i => trivial
+  | exitEnd i => trivial
+  | kill i => trivial
+  | deliver i => trivial
+
+def timelyRunOn (u B : Int) (ids : List Identity) : State → List Label → Bool
+  | _, [] => true
+  | s, l :: ls => allowedOn u B ids s l &&
+      (match step u s l with | some s1 => timelyRunOn u B ids s1 ls | none => true)
+
+/-- a concrete run whose every step passes the decidable check is a timely run -/
+theorem timely_run_on {u B : Int} (ids : List Identity) : ∀ (ls : List Label) (s s' : State), Timely u B s →
+    (∀ i, i ∉ ids → s.ops i = none) → timelyRunOn u B ids s ls = true → run u s ls = some s' → Timely u B s' := by
+  intro ls
+  induction ls with
+  | nil => intro s s' ht _ _ h; simp only [run, Option.some.injEq] at h; subst h; exact ht
+  | cons l rest ih =>
+    intro s s' ht hinv hall h
+    simp only [timelyRunOn, Bool.and_eq_true] at hall
+    simp only [run] at h
+    cases hs : step u s l with
+    | none => simp [hs] at h
+    | some s1 =>
+      simp only [hs] at h hall
+      have hinv1 : ∀ i, i ∉ ids → s1.ops i = none := by
+        intro i hi
+        refine ops_none_of_not_started [l] s s1 (hinv i hi) ?_ (show run u s [l] = some s1 by simp only [run, hs])
+        intro l' hl' p L e
+        simp only [List.mem_cons, List.mem_nil_iff, or_false] at hl'
+        subst hl'
+        subst e
+        have := hall.1
+        simp only [allowedOn, Bool.and_eq_true, List.contains_iff_mem] at this
+        exact hi this.1
+      exact ih s1 s' (Timely.step l ht (allowedOn_sound hinv hall.1) hs) hinv1 hall.2 h
 
 end Kopf.C13
